@@ -38,7 +38,9 @@ THEOREMS = {
             ("Eav.Lemmas.Local6531", "Eav.is6531Local_iff"), ("Eav.Lemmas.LocalGrammar", "Eav.Spec.specLocal_iff")],
     "C04": _gt("errEnum_eq", "limits_eq", "buildOpts_eq") + [("Eav.Props.C04", "Eav.Props.C04." + n) for n in
             ("host_iff", "isAsciiDomain_iff_spec", "specHost_iff", "host6531_sound", "isAsciiDomain_nonpos")] + [("Eav.Lemmas.Domain", "Eav.domLoop_ok")],
-    "C05": _gt("errEnum_eq"),
+    "C05": _gt("errEnum_eq") + [("Eav.Props.C05", n) for n in
+            ("Eav.isIpv4_literal", "Eav.isIpv6_upper", "Eav.isIpv6_lower")] + [("Eav.Props.C05", "Eav.Props.C05." + n) for n in
+            ("literal_upper", "literal_lower", "literal_family", "literal_every_mode", "literal_accepted_record")],
     "C06": _gt("init_sets_all", "init_fields", "limits_eq", "lenFilter_eq") + [("Eav.Props.C06", "Eav.Props.C06." + n) for n in
             ("isAsciiDomain_ok", "isIpv4_ok", "isIpv6_ok", "checkIp_ok", "isSpecialDomain_ok", "checkTld_ok", "isUtf8Domain_ok", "isEmail_ok", "step_isEmail_ok")] +
            [("Eav.Props.C13", "Eav.Props.C13." + n) for n in ("run_inv", "free_releases", "lifecycle_releases")] +
